@@ -4,6 +4,7 @@ import (
 	"fmt"
 	"io"
 	"sort"
+	"strings"
 	"sync/atomic"
 	"time"
 
@@ -118,6 +119,7 @@ type Hist struct {
 	CloseStuck       string
 	ServerClosedAtQ  bool // ... by the first quiescence point after the call (before any stalled reader was resumed)
 	LeftAfterClients []simrt.TaskInfo
+	LeftSubs         []LeftSub // subscriptions the topic tree still holds after every connection has ended
 	LeftAtEnd        []simrt.TaskInfo
 	HeldAtEnd        []string
 	ServeErr         string
@@ -691,6 +693,33 @@ func Run(script interface{}, cfg simrt.Config) *world.Outcome {
 
 func msDur(ms int) time.Duration { return time.Duration(ms) * time.Millisecond }
 
+// LeftSub is a subscription found in the topic tree after all connections ended.
+type LeftSub struct {
+	Filter, Topic string
+	N             int
+}
+
+// concreteTopic turns a filter into a topic name it matches ("" if none).
+func concreteTopic(f string) string {
+	if f == "" {
+		return ""
+	}
+	parts := strings.Split(f, "/")
+	for i, p := range parts {
+		switch p {
+		case "+":
+			parts[i] = "zz"
+		case "#":
+			parts[i] = "zz"
+		}
+	}
+	t := strings.Join(parts, "/")
+	if strings.HasPrefix(t, "$") || !refmqtt.Match(f, t) {
+		return ""
+	}
+	return t
+}
+
 func bufCfg(sc *Script) int {
 	if sc.Knobs.BufCfg != 0 {
 		return sc.Knobs.BufCfg
@@ -859,6 +888,26 @@ func (r *run) director() {
 	h.QuiesceV = append(h.QuiesceV, int64(s.Now()))
 	h.LeftAfterClients = s.LibTasksAlive()
 	if !sc.Knobs.CloseServer {
+		// every connection has ended: what does the topic tree still hold for
+		// a topic matching each filter the script subscribed to?
+		seen := map[string]bool{}
+		for _, cl := range sc.Clients {
+			for _, op := range cl.Ops {
+				if op.K != "sub" {
+					continue
+				}
+				for _, f := range op.Filters {
+					t := concreteTopic(f)
+					if t == "" || seen[t] || !refmqtt.ValidFilter(f) {
+						continue
+					}
+					seen[t] = true
+					if n, err := r.srv.VerifSubscribers(t); err == nil && n > 0 {
+						h.LeftSubs = append(h.LeftSubs, LeftSub{Filter: f, Topic: t, N: n})
+					}
+				}
+			}
+		}
 		r.closeServer()
 	}
 	h.LeftAtEnd = s.LibTasksAlive()
